@@ -31,7 +31,7 @@ CLAIMS = {
         text="C03_walk_eq_denote is proved for all inputs (any depth/width, floating fragments); C03_one_node_per_residue: node 0 is the reducing-end residue and the node list is a permutation of the written residues; C03_tree_shape: every node but the root has exactly one incoming edge, from a smaller id. The Model (lexer, priority-ordered parser over the "
              "regenerated grammar, typed syntax, walker) is tied to the code by comparing node names and per-node ordered child lists on "
              "bounded-exhaustive tree shapes x notations, random trees to depth 60 with random grammar-derived names, and foreign-text insertions; "
-             "the real code is also judged directly against the written tree (unordered) and must reject foreign text.",
+             "the real code is also judged directly against the written tree (unordered) and must reject foreign text. C03_forest_shape: for every Start, floating parts included, no node is a child twice, every edge points from a smaller to a larger existing id, and nodes minus edges = 1 + number of floating parts.",
         note="The ANTLR runtime and generated parser bodies are tied by correspondence only. " + NOTE, ref="6 C03"),
     "C15": dict(
         technique="Lean 4 theorems (longest-match lexer spec; generic priority parser sound and complete w.r.t. the grammar regenerated from Glycan.g4: C15_accept_iff; the serialized ATN of GlycanParser.py equals the grammar rule by rule: C15_atn_matches_grammar, by a proved-sound partial-derivative / subset-construction bisimulation check evaluated in the kernel) + bounded-exhaustive correspondence",
@@ -74,7 +74,7 @@ CLAIMS.update({
         technique="Lean 4 theorems by list induction over a model of converter.py (any conv, any argument mix) + differential runs of convert/convert_generator",
         text="C09_pairs, C09_aligned, C09_isolated, C09_failing_input_empty, C09_generator_same are proved for every per-glycan behaviour and every "
              "argument combination; C09_file_lines_roundtrip / C09_line_terminators: the Model of reading a glycan file (universal newlines, Python's strip) returns exactly the glycans written one per line. The model - which receives the raw file content - is tied to converter.py by running both on the same call (conv table taken from direct Glycan calls); the "
-             "real calls are also judged directly against the Spec pairs. Running time is measured (growth ratio on doubling), not proved.",
+             "real calls are also judged directly against the Spec pairs. Running time is measured (growth ratio on doubling), not proved. Inputs with control characters behind growing text are converted in their own interpreter under a 40 s budget (killed = violation).",
         note="partial: polynomial running time is a measurement; exceptions that do escape convert by design (missing file, raising user generator) are "
              "outside the theorem. " + NOTE, ref="6 C09"),
     "C10": dict(
@@ -86,23 +86,23 @@ CLAIMS.update({
         technique="Lean 4 theorems over a World model (logger switch, stdout, files) + call histories replayed against fresh interpreters",
         text="C11_logger_restored(_generator), C11_stdout_clean, C11_files_untouched, C11_result_independent_of_world, C11_history_logger are proved for all "
              "argument combinations and all histories of convert calls; C11_tables_frame / C11_open_form_history_independent / C11_without_copy_counterexample over a heap model of the class-level open-form table (copy.copy before the rewrite). The World model's logger switch, stdout lines and file lines are compared with every observed convert call. Random call histories run in one fresh interpreter and every call alone in its own; "
-             "results, logger switch, fd-level stdout, caller lists and a digest of the three class-level tables must agree.",
+             "results, logger switch, fd-level stdout, caller lists and a digest of the three class-level tables must agree. C11_get_smiles_keeps_the_tree (a tree_only object keeps its tree and flag across get_smiles - after repair d5e7703), C11_unstarted_generator_no_effect; histories contain never-advanced generators, the stdout fall-back for a missing output directory, and repeated count / tree / save_dot around get_smiles on tree_only objects.",
         note="partial: the deepcopy of the parse tree before marking (merger.py) and the recipe list shared with the walker are tied by the history runs (same method repeated around get_smiles, fresh-interpreter comparison), not by the heap model. " + NOTE, ref="6 C11, 14"),
     "C12": dict(
         technique="Lean 4 theorems (all sinks render the same pairs; executor-independence under joblib's order contract) + all delivery paths x cpu_count",
         text="C12_sinks_agree, C12_file_replaces_old_content (whatever the output file held before, afterwards exactly this call's lines; other files untouched), C12_schedule_independent, C12_direct_use are proved; batches are delivered through list/file/stdout/generator/CLI with cpu_count in "
-             "{1,2,4,16,-1}, through every input container (glycan, glycan_list, glycan_file, glycan_generator) and their mixtures, into fresh and into already existing output files, and compared line by line with the Spec pairs; the sink Model is run on the same worlds.",
+             "{1,2,4,16,-1}, through every input container (glycan, glycan_list, glycan_file, glycan_generator) and their mixtures, into fresh and into already existing output files, and compared line by line with the Spec pairs; the sink Model is run on the same worlds. The stdout listing and the returned list are also requested under verbose in {DEBUG, NOTSET, False, INFO, ERROR}.",
         note="partial: joblib returning results in submission order is a hypothesis of the theorem; process start-up, pickling and fd inheritance are exercised, not modelled. " + NOTE, ref="6 C12"),
     "C13": dict(
         technique="Lean 4 theorems (one differing atom of the reducing-end residue = one differing atom of the whole glycan's Spec molecule, by induction over the children: C13_one_centre_whole_glycan; decision logic: suffix wins, option fallback, start fallback) + Model/code correspondence inside Merger.merge + RDKit stereocentre diff over anomer/option/start variants",
         text="C13_one_centre_whole_glycan: two reducing-end strings equal but for one atom token, with the same children of any depth, give Spec molecules with the same bond events that differ in exactly that atom (with C08_anomers_one_mark_* for the library rows and C01_tree_refines_spec for the assembled strings). "
              "C13_suffix_wins, C13_option_used_without_suffix, C13_unknown_option_is_undefined, C13_start_fallback are proved over Models (GlyModel/Api/Query.lean) that are compared with the start position and root configuration observed inside the real Merger.merge_int on every run. For vocabulary residues and random "
-             "glycans the a / b / undefined forms must differ in exactly one anomeric-type centre (erase -> undefined, invert -> other anomer) and every start value must give the same molecule.",
+             "glycans the a / b / undefined forms must differ in exactly one anomeric-type centre (erase -> undefined, invert -> other anomer) and every start value must give the same molecule. C13_option_only_reaches_root / C13_root_call: in the binding plan (Model of Merger.mark / merge_int, compared with the calls observed for every option value) root_orientation reaches exactly one call - to_chirality on the reducing end, made only when it has no anomer of its own.",
         note="partial: that RDKit's rooted writings for different `start` atoms denote the same marked molecule is checked as molecules (canonical SMILES), not proved. " + NOTE, ref="6 C13, 14"),
     "C17": dict(
         technique="Lean 4 theorems over a model of __main__.py (expansion = flatMap, one line per glycan) + in-process and subprocess CLI runs",
         text="C17_expand, C17_lines and C17_file_argument are proved for every argument list and every file content (the Model splits and strips the raw file content itself); the CLI is run in-process and as `python -m glyles` on "
-             "argument lists mixing literals and files and compared with the Spec lines and with the model.",
+             "argument lists mixing literals and files and compared with the Spec lines and with the model. Argument lists include literals around and beyond the 255-byte file-name limit, longer than PATH_MAX, and path-like literals.",
         note="Zero glycans (single empty file): no output file is written; accepted as 'nothing to list' (C17_empty_writes_nothing documents it). An existing -o file triggers an interactive prompt: not exercised. " + NOTE, ref="6 C17"),
 })
 
@@ -134,7 +134,7 @@ CLAIMS.update({
     "C16": dict(
         technique="Lean 4 theorems (node count of the walked forest = size; node matchers of count: stricter matching never adds a match for one-token residues, kernel-checked counterexample otherwise) + Model/code correspondence of recipe_equality + summary/count/save_dot against the written tree and RDKit",
         text="C16_monomers is proved for every forest; C16_some_le_basic_partial / C16_some_gt_basic_counterexample over the matcher Model, which is compared with recipe_equality on 1500 residue pairs per run; summary() is compared with the written tree and with RDKit on get_smiles, count() with the Spec count for "
-             "single-residue queries in all modes, self- and sub-chain queries must match at least once, monotonicity basic >= some >= every, save_dot parsed back. C16_contains_itself: over the Model of count(match_nodes=True) (Embed.count = number of induced sub-graph isomorphisms under the node / edge matchers, compared with glycan.py on about 1000 counts per run) every glycan contains itself for every reflexive node matcher, edge matching on or off, whatever the shape of its linkage labels; C16_matchers_reflexive.",
+             "single-residue queries in all modes, self- and sub-chain queries must match at least once, monotonicity basic >= some >= every, save_dot parsed back. C16_contains_itself: over the Model of count(match_nodes=True) (Embed.count = number of induced sub-graph isomorphisms under the node / edge matchers, compared with glycan.py on about 1000 counts per run) every glycan contains itself for every reflexive node matcher, edge matching on or off, whatever the shape of its linkage labels; C16_matchers_reflexive. C16_leaves / C16_leaf_count / C16_depth: the Models of summary()['leaves'] (nodes without outgoing edge) and ['depth'] (longest parent chain from node 0) equal the leaves and the height of the written forest for every glycan without floating parts; both are compared with summary() on every sampled glycan. The strict count (match_all_fg) of a single-residue query is judged against 'residues that are the same molecule as the query'.",
         note="partial: count's Spec (countSpec over DiGraphMatcher) is executable only; one open known finding (every > some for differently spelled residues). " + NOTE, ref="6 C16"),
 })
 
